@@ -61,6 +61,10 @@ def ref_dns_entry(entry: str, host: str) -> str:
         return REJECT
     pre, post = left.split("*")
     h0 = hl[0]
+    if h0.startswith("xn--"):
+        # a partial wildcard would have to stand for part of an IDN A-label of the host: the wildcard is then
+        # "inside an A-label" and only the literal entry could match, which a wildcard-free host never equals
+        return REJECT
     if len(h0) >= len(pre) + len(post) and h0.startswith(pre) and h0.endswith(post):
         return EITHER  # partial wildcards may or may not be honoured
     return REJECT
